@@ -11,7 +11,7 @@ use flsrc::search::Searcher;
 use refchess::{Color, Kind, Mv, Pos};
 use serde_json::{json, Value};
 
-pub const RULE: &str = "two families, preconditions constructed and verified with the reference: (M) positions where the mover has >=1 mating move (heavy-piece vs exposed-king constructions, retractions of one move from generated checkmates, perturbed mate shapes incl. back-rank/smothered/pawn/promotion mates, plus whatever the general mixture contains), searched with find_best_move on a fresh Searcher at depth 1..4: the returned move must be in Mates(p) = legal moves after which the opponent is in check with no legal move; Part 'grid-mates' (enumerated; quick tier: a seed-dependent stratified share, thorough: all): items of the check-geometry grid with one of their checking moves turned into a mate by boxing the checked king in with men of its own side (kept only when the reference confirms the mate): mates by en-passant capture (direct and through the captured pawn's square), castling, promotion and under-promotion, discovery by every kind of blocker, and every single man, searched at depth 1..3. Part 'corner-mates' (enumerated; quick tier a seed-dependent twelfth): the defending king in a corner with at most one man of its own next to it, the attacking king two or three squares away, one or two attacking minor pieces — every such position with a mate in one (family M) or, defender to move, with a mix of moves that do and do not allow one (family D): the material without pawns, rooks and queens. (D) positions where some legal moves allow a mate in one and at least one does not, searched at depth 2..3: the returned move must not be in Allows(p) = { m : Mates(p·m) != {} }. Positions whose search exceeds the node watchdog are excluded and counted. Non-trivial: (M) >=2 legal moves and >=1 non-mating move; (D) >=3 legal moves (both classes non-empty by construction); distinct by (FEN, depth).";
+pub const RULE: &str = "two families, preconditions constructed and verified with the reference: (M) positions where the mover has >=1 mating move (heavy-piece vs exposed-king constructions, retractions of one move from generated checkmates, perturbed mate shapes incl. back-rank/smothered/pawn/promotion mates, plus whatever the general mixture contains), searched with find_best_move on a fresh Searcher at depth 1..4: the returned move must be in Mates(p) = legal moves after which the opponent is in check with no legal move; Part 'grid-mates' (enumerated; quick tier: a seed-dependent stratified share, thorough: all): items of the check-geometry grid with one of their checking moves turned into a mate by boxing the checked king in with men of its own side (kept only when the reference confirms the mate): mates by en-passant capture (direct and through the captured pawn's square), castling, promotion and under-promotion, discovery by every kind of blocker, and every single man, searched at depth 1..3; the rare kinds (and an eighth of the others) once more with a temptation on the board — an enemy queen or rook the mover could simply take. Part 'corner-mates' (enumerated; quick tier a seed-dependent twelfth): the defending king in a corner with at most one man of its own next to it, the attacking king two or three squares away, one or two attacking minor pieces — every such position with a mate in one (family M) or, defender to move, with a mix of moves that do and do not allow one (family D): the material without pawns, rooks and queens. (D) positions where some legal moves allow a mate in one and at least one does not, searched at depth 2..3: the returned move must not be in Allows(p) = { m : Mates(p·m) != {} }. Positions whose search exceeds the node watchdog are excluded and counted. Non-trivial: (M) >=2 legal moves and >=1 non-mating move; (D) >=3 legal moves (both classes non-empty by construction); distinct by (FEN, depth).";
 
 pub fn mates(p: &Pos) -> Vec<Mv> {
     p.legal_moves().into_iter().filter(|m| p.make(*m).is_mate()).collect()
@@ -383,10 +383,46 @@ fn judge_grid(it: &crate::grid::GridItem, stats: &mut Stats) -> Verdict {
     for (j, (p, m, kind)) in found.iter().enumerate() {
         let d = 1 + ((h >> (4 * j)) % 3) as u8;
         stats.class(&format!("G_mate_by_{}", kind));
-        let _ = m;
         judge_m(p, d, "grid", stats)?;
+        // the same mate with a TEMPTATION on the board: an enemy queen or rook that the mover can
+        // simply take (the mating move must be played all the same) — always for the rare kinds of
+        // mating move, one in eight for the others
+        let rare = !matches!(*kind, "direct" | "discovered");
+        if rare || (h >> (20 + j)) % 8 == 0 {
+            if let Some(q) = with_temptation(p, *m, h.rotate_left(j as u32 * 7)) {
+                stats.class(&format!("G_mate_by_{}_with_a_free_capture_on_the_board", kind));
+                judge_m(&q, 1 + ((h >> (30 + j)) % 3) as u8, "grid-temptation", stats)?;
+            }
+        }
     }
     Ok(())
+}
+
+/// `p` plus an enemy queen or rook on a square where the mover can capture it, such that `m` still
+/// mates (verified by the reference); None if no such square is found among the tried ones.
+fn with_temptation(p: &Pos, m: Mv, h: u64) -> Option<Pos> {
+    let def = p.stm.other();
+    for i in 0..24u64 {
+        let t = ((h >> 3).wrapping_add(i * 11) % 64) as u8;
+        if p.sq[t as usize].is_some() {
+            continue;
+        }
+        let kind = if (h >> 1) & 1 == 0 { Kind::Q } else { Kind::R };
+        let mut q = p.clone();
+        q.sq[t as usize] = Some((def, kind));
+        if !q.is_valid() || q.in_check() != p.in_check() {
+            continue;
+        }
+        let legal = q.legal_moves();
+        if !legal.contains(&m) || !q.make(m).is_mate() {
+            continue;
+        }
+        if !legal.iter().any(|c| c.to == t && c != &m) {
+            continue;
+        }
+        return Some(q);
+    }
+    None
 }
 
 /// Enumerated 'minor-piece corner mates': the defending king in a corner, possibly with one man of
